@@ -177,10 +177,10 @@ def twin_of(m, mapping, rmapping, perm_seed, flip):
 
 @st.composite
 def twin_cases(draw, cpp=False):
-    m = draw(models.model_specs(names="ident", n_state=(2, 4), n_control=(0, 3), n_calib=(0, 2), n_sensors=(1, 2),
+    m = draw(models.model_specs(names="ident" if cpp else draw(st.sampled_from(["ident", "free"])), n_state=(2, 4), n_control=(0, 3), n_calib=(0, 2), n_sensors=(1, 2),
                                 n_readings=(1, 3), depth=2, sensor_depth=2, innovation=("none", "k")))
     allnames = m["state"] + m["control"] + m["calib"]
-    fresh = draw(N.ident_lists(len(allnames)))
+    fresh = draw(N.ident_lists(len(allnames)) if cpp else N.freeform_lists(len(allnames)))
     mapping = dict(zip(allnames, fresh))
     rmapping = {}
     for key, rs in m["sensors"].items():
